@@ -109,6 +109,10 @@ def run_one(ctl: explorer.Ctl, cfg: Dict[str, Any]) -> Dict[str, Any]:
                     loop.call_soon(proc.exit, 0)
 
     proc.on_stdin = on_stdin
+    if cfg.get("stdin_full_after") is not None:
+        # the child stops draining its stdin after that many writes: later writes are taken by the pipe and never complete
+        k_full = cfg["stdin_full_after"]
+        proc.stdin.slow = lambda i, data: float("inf") if i >= k_full else None
     if b == "closes-stdin-side":
         proc.on_stdin_close = None
     flood = {"on": b == "stdout-flood"}
@@ -173,7 +177,15 @@ def run_one(ctl: explorer.Ctl, cfg: Dict[str, Any]) -> Dict[str, Any]:
             info["req_outcome"] = "error:" + type(e).__name__
             raise
 
-    async def body(read, write):
+    async def body(read, write, owner=None):
+        v = cfg.get("client_version")
+        if v and owner is not None:
+            owner.set_protocol_version(v)
+        for _ in range(cfg.get("unsolicited_batches", 0)):
+            # the child writes a JSON-RPC batch line by itself (at versions without batching the reader answers it with
+            # an error written straight to the child's stdin)
+            proc.stdout.feed(b'[{"jsonrpc":"2.0","method":"notifications/message","params":{"level":"info","data":"x"}}]\n')
+            await q.settle()
         if b == "flood-then-exit":
             await asyncio.sleep(0.2)  # the child is dead by now, its last output still unread
         if mo == "before-first":
@@ -220,7 +232,7 @@ def run_one(ctl: explorer.Ctl, cfg: Dict[str, Any]) -> Dict[str, Any]:
                 async with StdioTransport(_params()) as tr:
                     read, write = await tr.get_streams()
                     info["entered"] = loop.time()
-                    await body(read, write)
+                    await body(read, write, tr)
             elif entry == "reuse-client":
                 from chuk_mcp.transports.stdio.stdio_client import StdioClient
 
@@ -231,7 +243,7 @@ def run_one(ctl: explorer.Ctl, cfg: Dict[str, Any]) -> Dict[str, Any]:
                 async with client:
                     read, write = client.get_streams()
                     info["entered"] = loop.time()
-                    await body(read, write)
+                    await body(read, write, client)
             elif entry in ("transport-after-failed-start", "client-after-failed-start"):
                 # the same object: a first entry that fails because the command cannot be started, then a good one
                 from chuk_mcp.transports.stdio.stdio_client import StdioClient
@@ -696,6 +708,20 @@ def configs_for(tier: str):
                         if entry:
                             c["entry"] = entry
                         base.append(c)
+    # the reader itself writes to the child (rejecting a batch at a version without batching) while the child no longer
+    # drains its stdin: the context must still be left and the child terminated
+    for entry, ver in (("with_initialize", None), ("transport", "2025-06-18"), ("reuse-client", "2025-06-18"),
+                       ("transport", "2024-11-05"), ("reuse-client", None)):
+        for b in ("well", "ignore-term", "ignore-both"):
+            for nb in (1, 3):
+                for full_after in ((2,) if entry == "with_initialize" else (0, 1)):
+                    for e in EXITS:
+                        for m in MOMENTS:
+                            c = {"behaviour": b, "exit": e, "moment": m, "order": "fifo", "entry": entry, "unsolicited_batches": nb,
+                                 "stdin_full_after": full_after}
+                            if ver:
+                                c["client_version"] = ver
+                            base.append(c)
     return base, timing
 
 
